@@ -23,7 +23,7 @@ ASSUMPTIONS = [
     "restore-validation judged for Input only (the property's last sentence; InputExp restores "
     "an FSM state)",
 ]
-REQUIRED = {'puts_compared': 1000, 'rejections_seen': 200, 'acceptances_seen': 200,
+REQUIRED = {'allowed_collection_mutated': 50, 'puts_compared': 1000, 'rejections_seen': 200, 'acceptances_seen': 200,
             'ctor_refusals': 20, 'restores_checked': 20, 'schema_raised': 50,
             'unhashable_puts': 10}
 SHARDS = {'quick': 8, 'thorough': 16}
@@ -53,7 +53,12 @@ class Validators:
     def kwargs(self, as_list):
         kw = {}
         if self.allowed is not None:
-            kw['allowed'] = list(self.allowed) if as_list else tuple(self.allowed)
+            # list / tuple / set / frozenset: whatever collection is given, the block must keep
+            # its own snapshot (the harness empties or pollutes the mutable ones afterwards)
+            form = (len(self.allowed) + (1 if as_list else 0)) % 4
+            coll = [list, tuple, set, frozenset][form](self.allowed)
+            kw['allowed'] = coll
+            self.given_collection = coll
         if self.check_tab is not None:
             kw['check'] = self.check
         if self.schema_tab is not None:
@@ -191,6 +196,16 @@ def run_batch(batch, ctx):
                               f"{DOMAIN[case['expired']]!r}): {err!r}")
                 blk = None
             blocks.append(blk)
+            coll = getattr(val, 'given_collection', None)
+            if blk is not None and isinstance(coll, (list, set)):
+                # the application goes on using its collection after the block was created
+                ctx.count('allowed_collection_mutated')
+                if isinstance(coll, list):
+                    coll.clear()
+                    coll.extend(HASHABLE)
+                else:
+                    coll.clear()
+                    coll.update(HASHABLE)
         return blocks
 
     async def drive(sim, blocks):
